@@ -6,7 +6,8 @@
    unwound (any content: payments to / from the wallet's key, NFT groups, SPV
    entries), add_slip / delete_slip, window expiry (remove_old_slips), pruning
    (delete_block), outgoing transactions of arbitrary amount / fee built with any
-   hash-set iteration order, staking transactions, pending insertions.
+   hash-set iteration order, staking transactions, pending insertions,
+   update_from_balance_snapshot, reset.
    [dbg = true]: overflow checks on (debug profile: a u64 overflow is a Panic);
    [dbg = false]: release profile (wraps).  [ops_u64]: the amounts in the
    operations are u64 values. *)
@@ -85,6 +86,18 @@ Theorem C19_built_tx_ok_refuted_stale :
     In i (bt_from t) /\ 0 < s_amt i /\ ~ In (slip_key i) (w_unspent w).
 Proof. exact refuted_stale. Qed.
 
+(* not a defect of create_with_multiple_payments but of the same clause ("never reference the
+   same output twice"): update_from_balance_snapshot does not clear staking_slips and files
+   every slip, BlockStake included, under unspent_slips; create_staking_transaction then takes
+   the staked output from both sets *)
+Theorem C19_staking_tx_refuted_snapshot :
+  exists ops w sorder uorder amount unlocked lastvalid w' t,
+    ops_u64 ops /\ run true (init 1) ops = Ok w /\
+    enumerates sorder (w_staking w) = true /\ enumerates uorder (w_unspent w) = true /\
+    create_staking true w sorder uorder amount unlocked lastvalid = Ok (w', Some t) /\
+    ~ NoDup (map s_key (bt_from t)).
+Proof. exact refuted_snapshot_staking. Qed.
+
 (* outside the four classes ([Known_C19], decidable, defined on the call) every
    built transaction is fine; [Exact w] holds for every state reachable with
    overflow checks, and for every state whose balance did not wrap *)
@@ -155,6 +168,7 @@ Print Assumptions C19_built_tx_ok_refuted_edge.
 Print Assumptions C19_built_tx_ok_refuted_wrap.
 Print Assumptions C19_built_tx_ok_refuted_cap.
 Print Assumptions C19_built_tx_ok_refuted_stale.
+Print Assumptions C19_staking_tx_refuted_snapshot.
 Print Assumptions C19_built_tx_ok.
 Print Assumptions C19_reachable_exact.
 Print Assumptions C19_reachable_exact_release.
